@@ -200,8 +200,8 @@ theorem sr_execWith {ex : St → BOp → St} (hex : SRex ex) : SRex (execWith ex
     split
     · exact h
     · exact sr_getMemo hex h _
-  | cleanup tag => exact h.prim (CorePrim.regCleanup _ _ _)
-  | nested tag => exact h.prim (CorePrim.regCleanup _ _ _)
+  | cleanup tag => exact h.prim (CorePrim.regCleanup _ _ _ _)
+  | nested tag => exact h.prim (CorePrim.regCleanup _ _ _ _)
   | item v => exact CR.newStored h _
   | sig v => exact sr_newSignal h v
   | provide ty v => exact h.prim (CorePrim.provide _ _ _)
@@ -230,7 +230,7 @@ theorem sr_execBOp (a st : St) (op : BOp) (h : SR a st) : SR a (execBOp st op) :
 theorem sr_execHandlerTok (a st : St) (op : BOp) (h : SR a st) : SR a (execHandlerTok st op) := by
   cases op with
   | read s => exact sr_readSig h s
-  | cleanup tag => exact SR.react (st := st.lift (regCleanup · tag false)) (h.prim (CorePrim.regCleanup _ _ _)) rfl
+  | cleanup tag => exact SR.react (st := st.lift (regCleanup · tag false none)) (h.prim (CorePrim.regCleanup _ _ _ _)) rfl
   | item v => exact SR.react (st := st.lift (newStored · v)) (CR.newStored h _) rfl
   | sig v => exact SR.react (st := newSignal st v) (sr_newSignal h v) rfl
   | use ty => exact SR.react (st := st.lift (useCtx · ty)) (h.prim (CorePrim.useCtx _ _)) rfl
